@@ -131,6 +131,31 @@ def extend(repo, T, ex):
         isinstance(n, ast.Call) and isinstance(n.func, ast.Attribute) and n.func.attr == "_stop_ping_thread"
         for n in ast.walk(hd))
 
+    # ---- handleDisconnect(): an exception met while the application is closing (keep_running already False) is not an error
+    #      of the run: `if not self.keep_running and not isinstance(e, (KeyboardInterrupt, SystemExit)): teardown(); return`
+    #      as the FIRST statement (before has_errored is set and before anything is reported)
+    def _close_guard(st):
+        if not isinstance(st, ast.If) or st.orelse:
+            return False
+        t = st.test
+        if not (isinstance(t, ast.BoolOp) and isinstance(t.op, ast.And) and len(t.values) == 2):
+            return False
+        a, b = t.values
+        ok_a = isinstance(a, ast.UnaryOp) and isinstance(a.op, ast.Not) and _is_self_attr(a.operand, "keep_running")
+        ok_b = (isinstance(b, ast.UnaryOp) and isinstance(b.op, ast.Not) and isinstance(b.operand, ast.Call)
+                and getattr(b.operand.func, "id", "") == "isinstance" and len(b.operand.args) == 2
+                and getattr(b.operand.args[0], "id", "") == "e" and isinstance(b.operand.args[1], ast.Tuple)
+                and sorted(getattr(x, "id", "?") for x in b.operand.args[1].elts) == ["KeyboardInterrupt", "SystemExit"])
+        body_ok = (len(st.body) == 2 and isinstance(st.body[0], ast.Expr) and isinstance(st.body[0].value, ast.Call)
+                   and getattr(st.body[0].value.func, "id", "") == "teardown" and not st.body[0].value.args
+                   and isinstance(st.body[1], ast.Return) and st.body[1].value is None)
+        return ok_a and ok_b and body_ok
+    stmts = [st for st in hd.body if not (isinstance(st, ast.Expr) and isinstance(st.value, ast.Constant))]
+    guard = bool(stmts) and _close_guard(stmts[0])
+    if not guard and any(_is_self_attr(n, "keep_running") for n in ast.walk(hd)):
+        raise ex.ExtractError("handleDisconnect: keep_running is consulted in a shape the model does not know")
+    T["appCloseGuard"] = guard
+
     # ---- run_forever: `finally: if not custom_dispatcher: teardown()`
     fin = False
     for st in rf.body:
